@@ -25,6 +25,9 @@ pub enum VOp {
     Get { kind: u8, sel: u16 },
     Count,
     Snapshot { sel: u16 },
+    /// an iterator that yields nothing but reports u32::MAX - k items (k < 32): exhausts the index space
+    /// without touching memory; later pushes must fail cleanly and the count must stay monotone
+    ExtendHuge { k: u8 },
 }
 
 #[derive(Clone, Debug, Serialize, Deserialize, Hash)]
@@ -178,13 +181,22 @@ fn run_thread(me: usize, ops: Vec<VOp>, v: Arc<RawVec<u64>>, cols: usize) {
                     Err(p) => Res::Panicked(format!("get({idx}): {p}")),
                 }
             }
+            VOp::ExtendHuge { k } => {
+                let reported = u32::MAX as usize - (*k as usize % 32);
+                match guarded(|| v.extend(Lying { vals: Vec::new().into_iter(), reported }, |_, _| {})) {
+                    Ok(()) => Res::Extended,
+                    Err(p) => Res::Panicked(p),
+                }
+            }
             VOp::Count => match guarded(|| v.count()) {
                 Ok(c) => Res::Count(c),
                 Err(p) => Res::Panicked(p),
             },
             VOp::Snapshot { sel } => {
-                let start = (*sel as u32) % (v.count() + 1);
-                match guarded(|| v.snapshot(start).into_iter().map(|(i, it)| (i, it.map(|x| *x.data))).collect::<Vec<_>>()) {
+                let cnt = v.count();
+                // (after the index space was exhausted a full scan would have billions of entries)
+                let start = if cnt > 1_000_000 { cnt - (*sel as u32 % 200) } else { (*sel as u32) % (cnt + 1) };
+                match guarded(|| v.snapshot_bounded(start, 4096).1.into_iter().map(|(i, it)| (i, it.map(|x| *x.data))).collect::<Vec<_>>()) {
                     Ok(s) => Res::Snap(start, s),
                     Err(p) => Res::Panicked(p),
                 }
@@ -206,6 +218,7 @@ fn op_strategy() -> BoxedStrategy<VOp> {
         25 => (0u8..6, any::<u16>()).prop_map(|(kind, sel)| VOp::Get { kind, sel }),
         10 => Just(VOp::Count),
         10 => any::<u16>().prop_map(|sel| VOp::Snapshot { sel }),
+        2 => (0u8..32).prop_map(|k| VOp::ExtendHuge { k }),
     ]
     .boxed()
 }
@@ -243,6 +256,10 @@ impl Check for C08 {
             }
         }
         // lookups at the extremes of the index space
+        // exhausting the index space: the count must never decrease, lookups must not panic
+        for k in [0u8, 5, 31] {
+            v.push(SchedCase { capacity: 0, columns: 1, threads: vec![vec![VOp::Push, VOp::Count, VOp::ExtendHuge { k }, VOp::Count, VOp::Push, VOp::Count, VOp::Push, VOp::Count, VOp::Extend { n: 2, lie: 0 }, VOp::Count], vec![VOp::Count, VOp::Push, VOp::Count, VOp::Get { kind: 5, sel: 3 }, VOp::Count, VOp::Push, VOp::Count]], mode: 0, choices: vec![0, 1, 0, 0, 1, 1, 0, 1], changes: vec![] });
+        }
         v.push(SchedCase { capacity: 1, columns: 1, threads: vec![vec![VOp::Push, VOp::Get { kind: 5, sel: 0 }, VOp::Get { kind: 5, sel: 31 }, VOp::Get { kind: 5, sel: 32 }, VOp::Get { kind: 5, sel: 33 }], vec![VOp::Count]], mode: 1, choices: vec![0], changes: vec![] });
         v
     }
@@ -373,6 +390,12 @@ fn judge(c: &SchedCase, log: &[(usize, Ev)], final_count: u32, v: &RawVec<u64>, 
                         reserved_at.insert(*arg as u32, seq);
                     }
                     x if x == site::BOXCAR_EXTEND_RESERVED => {
+                        if let VOp::ExtendHuge { .. } = &c.threads[*t][op] {
+                            // reserves everything up to the end of the index space and yields nothing
+                            if let VOp::ExtendHuge { k } = &c.threads[*t][op] {
+                                ranges.push((*arg as u32, (u32::MAX - (*k as u32 % 32)).min(u32::MAX - *arg as u32), 0, *t, op));
+                            }
+                        }
                         if let VOp::Extend { n, lie } = &c.threads[*t][op] {
                             let reported = (*n as i32 + *lie as i32).max(0) as u32;
                             ranges.push((*arg as u32, reported, (*n as u32).min(reported), *t, op));
@@ -392,6 +415,10 @@ fn judge(c: &SchedCase, log: &[(usize, Ev)], final_count: u32, v: &RawVec<u64>, 
         }
     }
     let ctx = format!("case {c:?}");
+    let has_huge = c.threads.iter().flatten().any(|o| matches!(o, VOp::ExtendHuge { .. }));
+    if has_huge {
+        out.label("index-space-exhausted");
+    }
     // ---- disjoint, gap-free ------------------------------------------------------------------------------
     let mut sorted = ranges.clone();
     sorted.sort();
@@ -400,18 +427,28 @@ fn judge(c: &SchedCase, log: &[(usize, Ev)], final_count: u32, v: &RawVec<u64>, 
         if r.1 == 0 {
             continue;
         }
+        if has_huge && r.0 >= next {
+            // behind an exhausted index space reservations fail; only overlaps are judged
+            next = r.0.saturating_add(r.1);
+            continue;
+        }
         if r.0 != next {
             out.fail(if r.0 < next { "overlapping-indices" } else { "index-gap" }, format!("reserved index ranges do not tile the index space: range starting at {} (len {}) follows {next}; ranges {:?}; {ctx}", r.0, r.1, sorted));
             return;
         }
-        next = r.0 + r.1;
+        next = r.0.saturating_add(r.1);
     }
-    if next != final_count {
+    if next != final_count && !has_huge {
         out.fail("count-vs-reservations", format!("final count {final_count} but the reservations cover [0, {next}); {ctx}"));
     }
     // expected content per index
     let mut expect: HashMap<u32, u64> = HashMap::new();
     for r in &ranges {
+        let panicked = response_seq.get(&(r.3, r.4)).map_or(true, |&rs| matches!(log[rs].1, Ev::Response(_, Res::Panicked(_))));
+        if panicked && has_huge && r.0 >= u32::MAX - 64 {
+            // a reservation behind the end of the index space: the operation failed, nothing was written
+            continue;
+        }
         for k in 0..r.2 {
             expect.insert(r.0 + k, value_of(r.3, r.4, k as usize));
         }
@@ -423,7 +460,7 @@ fn judge(c: &SchedCase, log: &[(usize, Ev)], final_count: u32, v: &RawVec<u64>, 
         let inv = invoke_seq[&(*t, *k)];
         match res {
             Res::Panicked(p) => {
-                let allowed = matches!(&c.threads[*t][*k], VOp::Extend { lie, .. } if *lie < 0);
+                let allowed = matches!(&c.threads[*t][*k], VOp::Extend { lie, .. } if *lie < 0) || (has_huge && (p.contains("maximum") || p.contains("overflow")) && !matches!(&c.threads[*t][*k], VOp::Get { .. } | VOp::Count | VOp::Snapshot { .. }));
                 if !allowed {
                     let sig = if p.contains("exceeded maximum length") { "lookup-panics-at-index-space-end".to_string() } else { format!("panic:{}", p.rsplit(" at ").next().unwrap_or("")) };
                     out.fail(sig, format!("thread {t} op #{k} {:?} panicked: {p}; {ctx}", c.threads[*t][*k]));
